@@ -544,6 +544,13 @@ func (e *kengine) refine(s *kstate, cond ssa.Value, pol bool) {
 				}
 			}
 		}
+	case *ssa.Extract:
+		// `item, ok := helper(…); if ok`: on the edge where the helper's last (bool) result has the value pol, the other
+		// results have the facts of the helper's returns that return that constant
+		e.refineCorrelated(s, c, func(v ssa.Value) bool {
+			k, isC := v.(*ssa.Const)
+			return isC && k.Value != nil && k.Value.Kind() == constant.Bool && constant.BoolVal(k.Value) == pol
+		}, "bool")
 	case *ssa.Call:
 		callee := c.Common().StaticCallee()
 		if c.Common().IsInvoke() {
@@ -1166,6 +1173,13 @@ func kEngineFor(p *Prog, f *ssa.Function, preds *predSummaries, visiting map[*ss
 					if i < len(args) && isReflectValue(pa.Type()) {
 						st.vals[e.key(pa)] = ce.get(cst, args[i])
 					}
+					// a *Value handed on (receiver of an extracted method): what the caller established about its
+					// resolved reflect value (the kind switch it stands in) holds for the callee's view of it
+					if i < len(args) && typeName(pa.Type()) == "*Value" {
+						if rf, has := cst.vals[resolvedPrefix+ce.key(args[i])+")"]; has {
+							st.vals[resolvedPrefix+e.key(pa)+")"] = rf
+						}
+					}
 				}
 				if init == nil {
 					init = st
@@ -1235,7 +1249,13 @@ func keyFromMapKeys(p *Prog, k ssa.Value, m ssa.Value) bool {
 // refineSuccessResults: errv is the error result of a call of a package function; sets the facts of the call's
 // reflect.Value results to the join over the callee's returns whose error result is the nil constant.
 func (e *kengine) refineSuccessResults(s *kstate, errv ssa.Value) {
-	ex, ok := errv.(*ssa.Extract)
+	e.refineCorrelated(s, errv, isNilConst, "error")
+}
+
+// refineCorrelated: lastv is the last result (of type lastType) of a call of a package function; sets the facts of the
+// call's reflect.Value results to the join over the callee's returns whose last result satisfies want.
+func (e *kengine) refineCorrelated(s *kstate, lastv ssa.Value, want func(ssa.Value) bool, lastType string) {
+	ex, ok := lastv.(*ssa.Extract)
 	if !ok {
 		return
 	}
@@ -1248,14 +1268,25 @@ func (e *kengine) refineSuccessResults(s *kstate, errv ssa.Value) {
 		return
 	}
 	res := callee.Signature.Results()
-	if ex.Index != res.Len()-1 || typeName(res.At(ex.Index).Type()) != "error" {
+	if ex.Index != res.Len()-1 || typeName(res.At(ex.Index).Type()) != lastType {
 		return
 	}
 	if kVisiting[callee] {
 		return
 	}
 	kVisiting[callee] = true
-	ce := kEngineFor(e.p, callee, e.preds, map[*ssa.Function]bool{e.f: true})
+	// the callee is analysed for THIS call: its reflect.Value parameters start with the facts of the arguments here
+	// (not cached: the caller's own analysis is still running)
+	ce := &kengine{p: e.p, f: callee, preds: e.preds}
+	init := newKState()
+	args := callArgs(call.Common())
+	for i, pa := range callee.Params {
+		if i < len(args) && isReflectValue(pa.Type()) {
+			init.vals[ce.key(pa)] = e.get(s, args[i])
+		}
+	}
+	ce.initial = init
+	ce.run()
 	delete(kVisiting, callee)
 	for i := 0; i < res.Len()-1; i++ {
 		if !isReflectValue(res.At(i).Type()) {
@@ -1263,7 +1294,7 @@ func (e *kengine) refineSuccessResults(s *kstate, errv ssa.Value) {
 		}
 		var joined *kfact
 		for _, ret := range returnsOf(callee) {
-			if len(ret.Results) != res.Len() || !isNilConst(res0(ret, res.Len()-1)) {
+			if len(ret.Results) != res.Len() || !want(res0(ret, res.Len()-1)) {
 				continue
 			}
 			st := ce.out[ret.Block()]
